@@ -13,21 +13,23 @@ Import ListNotations.
    served from the cache, run successfully, or failed - cwd and argv are what they were before it; for every
    history, every starting state, any path resolution. *)
 Theorem C08_restore :
-  forall (C R : Type) (run : C -> option R) (hash : nat -> Z) (resolve : dir -> nat -> nat) (runh : nat -> C -> option R)
+  forall (C R : Type) (run : C -> option R) (hash : nat -> Z) (resolve : dir -> nat -> nat) (opendir : dir -> dir -> dir)
+         (runh : nat -> C -> option R)
          (K : Type) (keq : K -> K -> bool) (keyof : nat -> option C -> K) (ops : list (op C)) (st : state C R K),
   Forall (fun e => is_client_run C (eop e) = true ->
                    cwd (after e) = cwd (before e) /\ argv (after e) = argv (before e))
-         (trace C R run hash resolve runh K keq keyof true st ops).
+         (trace C R run hash resolve opendir runh K keq keyof true st ops).
 Proof. exact trace_restore. Qed.
 Print Assumptions C08_restore.
 
 (* hence a whole history of requests, file edits and new clients ends where it started *)
 Theorem C08_restore_history :
-  forall (C R : Type) (run : C -> option R) (hash : nat -> Z) (resolve : dir -> nat -> nat) (runh : nat -> C -> option R)
+  forall (C R : Type) (run : C -> option R) (hash : nat -> Z) (resolve : dir -> nat -> nat) (opendir : dir -> dir -> dir)
+         (runh : nat -> C -> option R)
          (K : Type) (keq : K -> K -> bool) (keyof : nat -> option C -> K) (ops : list (op C)) (st : state C R K),
   forallb (only_runs_and_files C) ops = true ->
-  cwd (final C R run hash resolve runh K keq keyof true st ops) = cwd st
-  /\ argv (final C R run hash resolve runh K keq keyof true st ops) = argv st.
+  cwd (final C R run hash resolve opendir runh K keq keyof true st ops) = cwd st
+  /\ argv (final C R run hash resolve opendir runh K keq keyof true st ops) = argv st.
 Proof. exact final_restore. Qed.
 Print Assumptions C08_restore_history.
 
@@ -43,30 +45,33 @@ Print Assumptions C08_restore_pinned_refuted.
 
 (* what the pinned client does guarantee: restore after every request that does not raise *)
 Theorem C08_restore_pinned_partial :
-  forall (C R : Type) (run : C -> option R) (hash : nat -> Z) (resolve : dir -> nat -> nat) (runh : nat -> C -> option R)
+  forall (C R : Type) (run : C -> option R) (hash : nat -> Z) (resolve : dir -> nat -> nat) (opendir : dir -> dir -> dir)
+         (runh : nat -> C -> option R)
          (K : Type) (keq : K -> K -> bool) (keyof : nat -> option C -> K) (ops : list (op C)) (st : state C R K),
   Forall (fun e => is_get (eop e) = true -> eout e <> Raised ->
                    cwd (after e) = cwd (before e) /\ argv (after e) = argv (before e))
-         (trace C R run hash resolve runh K keq keyof false st ops).
+         (trace C R run hash resolve opendir runh K keq keyof false st ops).
 Proof. exact trace_restore_pinned_partial. Qed.
 Print Assumptions C08_restore_pinned_partial.
 
 (* HIP-RA-X / HIP-RA clients (no cache, restore in `finally`): a request leaves the WHOLE state as it was *)
 Theorem C08_hip_frame :
-  forall (C R : Type) (run : C -> option R) (hash : nat -> Z) (resolve : dir -> nat -> nat) (runh : nat -> C -> option R)
+  forall (C R : Type) (run : C -> option R) (hash : nat -> Z) (resolve : dir -> nat -> nat) (opendir : dir -> dir -> dir)
+         (runh : nat -> C -> option R)
          (K : Type) (keq : K -> K -> bool) (keyof : nat -> option C -> K) (fixed : bool) (ops : list (op C)) (st : state C R K),
-  Forall (fun e => forall k p, eop e = HipGet k p -> after e = before e) (trace C R run hash resolve runh K keq keyof fixed st ops).
+  Forall (fun e => forall k p, eop e = HipGet k p -> after e = before e) (trace C R run hash resolve opendir runh K keq keyof fixed st ops).
 Proof. exact trace_hip_frame. Qed.
 Print Assumptions C08_hip_frame.
 
 (* command-line entry point (restore in `finally`): cwd is given back whether main() returns or raises, and the
    argument list it was started with is still in place *)
 Theorem C08_cli_restore :
-  forall (C R : Type) (run : C -> option R) (hash : nat -> Z) (resolve : dir -> nat -> nat) (runh : nat -> C -> option R)
+  forall (C R : Type) (run : C -> option R) (hash : nat -> Z) (resolve : dir -> nat -> nat) (opendir : dir -> dir -> dir)
+         (runh : nat -> C -> option R)
          (K : Type) (keq : K -> K -> bool) (keyof : nat -> option C -> K) (fixed : bool) (ops : list (op C)) (st : state C R K),
   Forall (fun e => forall p, eop e = Cli p ->
                    cwd (after e) = cwd (before e) /\ argv (after e) = [AUser 0; AIn p; AOut (hash p)])
-         (trace C R run hash resolve runh K keq keyof fixed st ops).
+         (trace C R run hash resolve opendir runh K keq keyof fixed st ops).
 Proof. exact trace_cli_restore. Qed.
 Print Assumptions C08_cli_restore.
 
@@ -75,23 +80,24 @@ Print Assumptions C08_cli_restore.
    deletes the file.  At the end cwd and argv are unchanged, the clients that existed before are untouched, and the
    results of the embedded requests are, in order, the run of the iteration content (a failure when it does not run) *)
 Theorem C08_mc_package :
-  forall (C R : Type) (run : C -> option R) (hash : nat -> Z) (resolve : dir -> nat -> nat) (runh : nat -> C -> option R)
+  forall (C R : Type) (run : C -> option R) (hash : nat -> Z) (resolve : dir -> nat -> nat) (opendir : dir -> dir -> dir)
+         (runh : nat -> C -> option R)
          (K : Type) (keq : K -> K -> bool) (keyof : nat -> option C -> K) (ps : list nat) (st : state C R K) (c : C),
   (forall p, In p ps -> forall d, resolve d p = p) ->
-  let st' := final C R run hash resolve runh K keq keyof true st (mc_package (List.length (clients st)) ps c) in
+  let st' := final C R run hash resolve opendir runh K keq keyof true st (mc_package (List.length (clients st)) ps c) in
   cwd st' = cwd st /\ argv st' = argv st
   /\ firstn (List.length (clients st)) (clients st') = clients st
   /\ filter (fun o => match o with Done => false | _ => true end)
-            (map (@eout C R K) (trace C R run hash resolve runh K keq keyof true st (mc_package (List.length (clients st)) ps c)))
+            (map (@eout C R K) (trace C R run hash resolve opendir runh K keq keyof true st (mc_package (List.length (clients st)) ps c)))
      = repeat (match run c with Some r => Returned r false | None => Raised end) (List.length ps).
 Proof. exact mc_package_spec. Qed.
 Print Assumptions C08_mc_package.
 
 (* NO CONTAMINATION in the model: a request changes nothing but the cache of the client it went through *)
 Theorem C08_get_frame :
-  forall (C R : Type) (run : C -> option R) (hash : nat -> Z) (resolve : dir -> nat -> nat)
+  forall (C R : Type) (run : C -> option R) (hash : nat -> Z) (resolve : dir -> nat -> nat) (opendir : dir -> dir -> dir)
          (K : Type) (keq : K -> K -> bool) (keyof : nat -> option C -> K) (st : state C R K) (ci p : nat),
-  let st' := fst (client_get C R run hash resolve K keq keyof true st ci p) in
+  let st' := fst (client_get C R run hash resolve opendir K keq keyof true st ci p) in
   cwd st' = cwd st /\ argv st' = argv st /\ files st' = files st
   /\ List.length (clients st') = List.length (clients st)
   /\ forall j, j <> ci -> nth_error (clients st') j = nth_error (clients st) j.
@@ -136,69 +142,86 @@ Theorem C08_cache_refines_run_partial :
   Forall (fun e => forall w, wpath C (eop e) = Some w -> forall p, resolve DSrc p = w ->
                    forall cl, In cl (clients (before e)) -> caching cl = true ->
                    cache_lookup Z.eqb (hash p) (cache cl) = None)
-         (trace C R run hash resolve runh Z Z.eqb (path_key hash) fixed (init d a f) ops) ->
+         (trace C R run hash resolve code_opendir runh Z Z.eqb (path_key hash) fixed (init d a f) ops) ->
   Forall (fun e => (forall ci p, eop e = Get ci p -> resolve (cwd (before e)) p = resolve DSrc p)
                    /\ (forall k p, eop e = HipGet k p -> resolve (cwd (before e)) p = resolve (DPkg k) p))
-         (trace C R run hash resolve runh Z Z.eqb (path_key hash) fixed (init d a f) ops) ->
+         (trace C R run hash resolve code_opendir runh Z Z.eqb (path_key hash) fixed (init d a f) ops) ->
   Forall (fun e => forall orc p r h, request C R run runh (eop e) = Some (orc, p) -> eout e = Returned r h ->
                    expected_with C R orc (files (before e)) (resolve (cwd (before e)) p) = Some r)
-         (trace C R run hash resolve runh Z Z.eqb (path_key hash) fixed (init d a f) ops).
+         (trace C R run hash resolve code_opendir runh Z Z.eqb (path_key hash) fixed (init d a f) ops).
 Proof. exact trace_refines_init. Qed.
 Print Assumptions C08_cache_refines_run_partial.
 
 (* with caching off the clause needs only the path hypothesis: any hash, files rewritten at will *)
 Theorem C08_nocache_refines_run :
-  forall (C R : Type) (run : C -> option R) (hash : nat -> Z) (resolve : dir -> nat -> nat) (runh : nat -> C -> option R)
+  forall (C R : Type) (run : C -> option R) (hash : nat -> Z) (resolve : dir -> nat -> nat) (opendir : dir -> dir -> dir)
+         (runh : nat -> C -> option R)
          (K : Type) (keq : K -> K -> bool) (keyof : nat -> option C -> K) (fixed : bool) (ops : list (op C)) (st : state C R K),
   (forall cl, In cl (clients st) -> caching cl = false) ->
   (forall b, In (NewClient b) ops -> b = false) ->
-  Forall (fun e => (forall ci p, eop e = Get ci p -> resolve (cwd (before e)) p = resolve DSrc p)
-                   /\ (forall k p, eop e = HipGet k p -> resolve (cwd (before e)) p = resolve (DPkg k) p))
-         (trace C R run hash resolve runh K keq keyof fixed st ops) ->
+  Forall (fun e => (forall ci p, eop e = Get ci p -> resolve (cwd (before e)) p = resolve (opendir DSrc (cwd (before e))) p)
+                   /\ (forall k p, eop e = HipGet k p -> resolve (cwd (before e)) p = resolve (opendir (DPkg k) (cwd (before e))) p))
+         (trace C R run hash resolve opendir runh K keq keyof fixed st ops) ->
   Forall (fun e => forall orc p r h, request C R run runh (eop e) = Some (orc, p) -> eout e = Returned r h ->
                    expected_with C R orc (files (before e)) (resolve (cwd (before e)) p) = Some r)
-         (trace C R run hash resolve runh K keq keyof fixed st ops).
+         (trace C R run hash resolve opendir runh K keq keyof fixed st ops).
 Proof. exact trace_refines_nocache. Qed.
 Print Assumptions C08_nocache_refines_run.
 
 (* absolute paths (resolve d p = p) satisfy the path hypothesis in every history *)
 Theorem C08_absolute_paths_resolve_same :
-  forall (C R : Type) (run : C -> option R) (hash : nat -> Z) (resolve : dir -> nat -> nat) (runh : nat -> C -> option R)
+  forall (C R : Type) (run : C -> option R) (hash : nat -> Z) (resolve : dir -> nat -> nat) (opendir : dir -> dir -> dir)
+         (runh : nat -> C -> option R)
          (K : Type) (keq : K -> K -> bool) (keyof : nat -> option C -> K) (fixed : bool),
   (forall d p, resolve d p = p) -> forall (ops : list (op C)) (st : state C R K),
-  Forall (fun e => (forall ci p, eop e = Get ci p -> resolve (cwd (before e)) p = resolve DSrc p)
-                   /\ (forall k p, eop e = HipGet k p -> resolve (cwd (before e)) p = resolve (DPkg k) p))
-         (trace C R run hash resolve runh K keq keyof fixed st ops).
+  Forall (fun e => (forall ci p, eop e = Get ci p -> resolve (cwd (before e)) p = resolve (opendir DSrc (cwd (before e))) p)
+                   /\ (forall k p, eop e = HipGet k p -> resolve (cwd (before e)) p = resolve (opendir (DPkg k) (cwd (before e))) p))
+         (trace C R run hash resolve opendir runh K keq keyof fixed st ops).
 Proof. exact absolute_resolves_same. Qed.
 Print Assumptions C08_absolute_paths_resolve_same.
+
+(* THE REPAIR of the relative-path defect: opening the request path against the CALLER's directory (handing main()
+   a path made absolute at request time) satisfies the path hypothesis in every history, for any paths *)
+Theorem C08_caller_dir_resolves_same :
+  forall (C R : Type) (run : C -> option R) (hash : nat -> Z) (resolve : dir -> nat -> nat) (opendir : dir -> dir -> dir)
+         (runh : nat -> C -> option R)
+         (K : Type) (keq : K -> K -> bool) (keyof : nat -> option C -> K) (fixed : bool),
+  (forall pkg d, opendir pkg d = d) -> forall (ops : list (op C)) (st : state C R K),
+  Forall (fun e => (forall ci p, eop e = Get ci p -> resolve (cwd (before e)) p = resolve (opendir DSrc (cwd (before e))) p)
+                   /\ (forall k p, eop e = HipGet k p -> resolve (cwd (before e)) p = resolve (opendir (DPkg k) (cwd (before e))) p))
+         (trace C R run hash resolve opendir runh K keq keyof fixed st ops).
+Proof. exact caller_dir_resolves_same. Qed.
+Print Assumptions C08_caller_dir_resolves_same.
 
 (* THE REPAIR of the cache: a key that determines the run - e.g. the path hash TOGETHER WITH the content of the
    file at request time - satisfies the clause for every history, with files rewritten at will and any hash *)
 Theorem C08_sound_key_refines_run :
-  forall (C R : Type) (run : C -> option R) (hash : nat -> Z) (resolve : dir -> nat -> nat) (runh : nat -> C -> option R)
+  forall (C R : Type) (run : C -> option R) (hash : nat -> Z) (resolve : dir -> nat -> nat) (opendir : dir -> dir -> dir)
+         (runh : nat -> C -> option R)
          (K : Type) (keq : K -> K -> bool) (keyof : nat -> option C -> K) (fixed : bool),
   (forall p c p' c', keq (keyof p c) (keyof p' c') = true ->
                      match c with Some x => run x | None => None end = match c' with Some x => run x | None => None end) ->
   forall (ops : list (op C)) (d : dir) (a : list arg) (f : fs C),
-  Forall (fun e => (forall ci p, eop e = Get ci p -> resolve (cwd (before e)) p = resolve DSrc p)
-                   /\ (forall k p, eop e = HipGet k p -> resolve (cwd (before e)) p = resolve (DPkg k) p))
-         (trace C R run hash resolve runh K keq keyof fixed (init d a f) ops) ->
+  Forall (fun e => (forall ci p, eop e = Get ci p -> resolve (cwd (before e)) p = resolve (opendir DSrc (cwd (before e))) p)
+                   /\ (forall k p, eop e = HipGet k p -> resolve (cwd (before e)) p = resolve (opendir (DPkg k) (cwd (before e))) p))
+         (trace C R run hash resolve opendir runh K keq keyof fixed (init d a f) ops) ->
   Forall (fun e => forall orc p r h, request C R run runh (eop e) = Some (orc, p) -> eout e = Returned r h ->
                    expected_with C R orc (files (before e)) (resolve (cwd (before e)) p) = Some r)
-         (trace C R run hash resolve runh K keq keyof fixed (init d a f) ops).
+         (trace C R run hash resolve opendir runh K keq keyof fixed (init d a f) ops).
 Proof. exact trace_refines_sound_key_init. Qed.
 Print Assumptions C08_sound_key_refines_run.
 
 Theorem C08_content_key_refines_run :
-  forall (C R : Type) (run : C -> option R) (hash : nat -> Z) (resolve : dir -> nat -> nat) (runh : nat -> C -> option R) (ceq : C -> C -> bool) (fixed : bool),
+  forall (C R : Type) (run : C -> option R) (hash : nat -> Z) (resolve : dir -> nat -> nat) (opendir : dir -> dir -> dir)
+         (runh : nat -> C -> option R) (ceq : C -> C -> bool) (fixed : bool),
   (forall a b, ceq a b = true -> a = b) ->
   forall (ops : list (op C)) (d : dir) (a : list arg) (f : fs C),
-  Forall (fun e => (forall ci p, eop e = Get ci p -> resolve (cwd (before e)) p = resolve DSrc p)
-                   /\ (forall k p, eop e = HipGet k p -> resolve (cwd (before e)) p = resolve (DPkg k) p))
-         (trace C R run hash resolve runh (Z * option C) (content_keq ceq) (content_key hash) fixed (init d a f) ops) ->
+  Forall (fun e => (forall ci p, eop e = Get ci p -> resolve (cwd (before e)) p = resolve (opendir DSrc (cwd (before e))) p)
+                   /\ (forall k p, eop e = HipGet k p -> resolve (cwd (before e)) p = resolve (opendir (DPkg k) (cwd (before e))) p))
+         (trace C R run hash resolve opendir runh (Z * option C) (content_keq ceq) (content_key hash) fixed (init d a f) ops) ->
   Forall (fun e => forall orc p r h, request C R run runh (eop e) = Some (orc, p) -> eout e = Returned r h ->
                    expected_with C R orc (files (before e)) (resolve (cwd (before e)) p) = Some r)
-         (trace C R run hash resolve runh (Z * option C) (content_keq ceq) (content_key hash) fixed (init d a f) ops).
+         (trace C R run hash resolve opendir runh (Z * option C) (content_keq ceq) (content_key hash) fixed (init d a f) ops).
 Proof. exact trace_refines_content_key. Qed.
 Print Assumptions C08_content_key_refines_run.
 
@@ -209,7 +232,7 @@ Theorem C08_result_function_of_content :
   forall (C R : Type) (run : C -> option R) (hash : nat -> Z) (resolve : dir -> nat -> nat) (runh : nat -> C -> option R) fixed1 fixed2 ps1 ps2 (st1 st2 : state C R Z) ops1 ops2
          e1 e2 orc p1 p2 r1 r2 h1 h2,
   safe_history C R run hash resolve runh fixed1 ps1 st1 ops1 -> safe_history C R run hash resolve runh fixed2 ps2 st2 ops2 ->
-  In e1 (trace C R run hash resolve runh Z Z.eqb (path_key hash) fixed1 st1 ops1) -> In e2 (trace C R run hash resolve runh Z Z.eqb (path_key hash) fixed2 st2 ops2) ->
+  In e1 (trace C R run hash resolve code_opendir runh Z Z.eqb (path_key hash) fixed1 st1 ops1) -> In e2 (trace C R run hash resolve code_opendir runh Z Z.eqb (path_key hash) fixed2 st2 ops2) ->
   request C R run runh (eop e1) = Some (orc, p1) -> request C R run runh (eop e2) = Some (orc, p2) ->
   eout e1 = Returned r1 h1 -> eout e2 = Returned r2 h2 ->
   fs_lookup (resolve (cwd (before e1)) p1) (files (before e1))
@@ -310,7 +333,7 @@ Proof.
   - vm_compute. repeat (apply Forall_cons; [|]); try apply Forall_nil; intros w H; try discriminate H;
       inversion H; subst; intros p Hp; subst; intros cl Hcl;
       repeat (destruct Hcl as [Hcl|Hcl]; [subst cl; intros _; reflexivity|]); destruct Hcl.
-  - apply (absolute_resolves_same nat nat (crun [0; 1]) chash (cresolve []) (crunh []) Z Z.eqb (path_key chash) true).
+  - apply (absolute_resolves_same nat nat (crun [0; 1]) chash (cresolve []) code_opendir (crunh []) Z Z.eqb (path_key chash) true).
     reflexivity.
   - vm_compute. reflexivity.
 Qed.
@@ -320,6 +343,14 @@ Qed.
 Example C08_relative_example :
   map (@eout nat nat Z) (ptrace rel_cfg true DSrc [] [NewClient false; Get 0 100; Chdir (DUser 0); Write 60 0; Get 0 100])
   = [Done; Returned 1 false; Done; Done; Returned 1 false].
+Proof. vm_compute. reflexivity. Qed.
+
+(* both repairs together on the relative-path witness and the stale witness: every result is the caller's content *)
+Example C08_repairs_example :
+  map (@eout nat nat (Z * option nat))
+      (ctrace_with caller_opendir rel_cfg true (DUser 0) []
+         [NewClient true; Write 60 0; Get 0 100; Write 60 1; Get 0 100; Chdir DSrc; Get 0 100])
+  = [Done; Done; Returned 0 false; Done; Returned 1 false; Done; Returned 1 true].
 Proof. vm_compute. reflexivity. Qed.
 
 (* the repaired (content-keyed) client on the stale witness: the second request runs the new content *)
